@@ -16,7 +16,7 @@ type Label struct {
 	Type  int    `json:"t"`
 	Sub   string `json:"s,omitempty"`
 	Dyn   int    `json:"d"`
-	Spell string `json:"sp,omitempty"` // spelling used in the Go declaration / option (case variant of Name)
+	Spell string `json:"sp,omitempty"`  // spelling used in the Go declaration / option (case variant of Name)
 	Tag   bool   `json:"tag,omitempty"` // struct forms: name given by tag instead of field name
 }
 
